@@ -39,6 +39,7 @@ def run(ctx):
     ctx.do(rule_key_order)
     ctx.do(rule_escapes)
     ctx.do(rule_number_constants)
+    ctx.do(rule_markers_released)
     from .hidden_state import rule_no_hidden_state
     ctx.do(rule_no_hidden_state, "C16.history-independence")
     from .pitfalls import rule_loops_not_cut_short
@@ -477,3 +478,63 @@ def rule_number_constants(ctx, rule_id="C16.number-constants"):
               line=rets[0].lineno if rets else fi.node.lineno, function=fi.qualname, expected="pySign + pyFirst + pyDot + pyLast + pyExpStr",
               found=[short(r) for r in rets])
     run.floor(R, 8)
+
+
+def rule_markers_released(ctx):
+    """Pairing: the encoders of lists and dictionaries register the container in `markers` on entry (circular-reference
+    detection) and take it out again when they are done.  Every normal path from the registration to an exit of the generator
+    passes the release -- an early `return` in between (a fast path) leaves the container registered, and the SAME list or
+    dictionary object met a second time in one document (the value is legal JSON) is refused as a circular reference."""
+    from ..cfg import cfg_of
+    run = ctx.run
+    prog = ctx.prog
+    R = "C16.encoder-siblings"
+    n = 0
+    for fi in sorted(prog.functions.values(), key=lambda f: f.id):
+        if fi.module.name != "stix2.canonicalization.Canonicalize" or not isinstance(fi.node, ast.FunctionDef):
+            continue
+        own = [x_ for s_ in fi.node.body if not isinstance(s_, (ast.FunctionDef, ast.ClassDef)) for x_ in walk_no_nested(s_)]
+        regs = [a_ for a_ in own if isinstance(a_, ast.Assign) and isinstance(a_.targets[0], ast.Subscript)
+                and norm(a_.targets[0].value) == "markers"]
+        if not regs:
+            continue
+        g = cfg_of(fi)
+        for a_ in regs:
+            n += 1
+            keytxt = norm(a_.targets[0].slice)
+            rel_nodes = [x for x in own if isinstance(x, ast.Delete) and any(
+                isinstance(t, ast.Subscript) and norm(t.value) == "markers" and norm(t.slice) == keytxt for t in x.targets)]
+            start = g.node_of(a_)
+            if start is None:
+                raise AnalysisError("%s: registration statement not in the flow graph" % fi.qualname)
+            rn = {g.node_of(x) for x in rel_nodes}
+            # the release stands under the same test as the registration (`if markers is not None:`): on a path that comes from
+            # the registration that test is true, so its false edge is not followed (correlated conditions)
+            gtxt = {norm(t) for t, pol, _ in guard_chain(a_) if pol}
+            from collections import deque
+            prev = {start: None}
+            dq = deque([start])
+            p = None
+            while dq:
+                nd = dq.popleft()
+                if nd is g.exit:
+                    p = []
+                    while nd is not None:
+                        p.append(nd)
+                        nd = prev[nd]
+                    p.reverse()
+                    break
+                for s_, lab in nd.succ:
+                    if lab in ("exc", "raise") or s_ in prev or s_ in rn:
+                        continue
+                    if lab == "false" and nd.kind == "test" and isinstance(nd.ast, ast.If) and norm(nd.ast.test) in gtxt:
+                        continue
+                    prev[s_] = nd
+                    dq.append(s_)
+            run.check(p is None and bool(rel_nodes), R, key(fi.module.relpath, fi.qualname, "marker-released-on-every-exit"),
+                      "a container registered for circular-reference detection is not taken out again on every normal exit: the same "
+                      "list / dictionary object referenced twice in one value is then refused as circular, although the value is a "
+                      "tree of JSON values", file=fi.module.relpath, line=a_.lineno, function=fi.qualname,
+                      expected="del markers[%s] on every path to the end" % keytxt, found="bypass", path=g.describe_path(p) if p else None)
+    if n < 2:
+        raise AnalysisError("fewer than 2 marker registrations found in the canonicaliser (%d)" % n)
